@@ -83,6 +83,7 @@ macro_rules! range_impl {
             // successfully encoded (model index, symbol) pairs, for op 12 (None once the encoder was
             // replaced through raw parts)
             let mut encoded_opt: Option<Vec<(usize, i64)>> = Some(Vec::new());
+            let mut stash: Option<Enc> = None;
 
             // ---------------- encoder phase
             while !r.done() && dec.is_none() {
@@ -147,6 +148,20 @@ macro_rules! range_impl {
                     7 => {
                         let (bulk, st, sit) = enc.into_raw_parts();
                         enc = RangeEncoder::from_raw_parts(bulk, st, sit);
+                        out.push(0);
+                    }
+                    13 => {
+                        // replace the encoder by a copy made with Clone::clone_from into a STALE
+                        // scratch encoder (the encoder as it was at the previous op 13, or a fresh
+                        // one); a copy must be the same coder whatever the scratch held before
+                        let mut scratch = stash.take().unwrap_or_else(RangeEncoder::new);
+                        scratch.clone_from(&enc);
+                        stash = Some(core::mem::replace(&mut enc, scratch));
+                        out.push(0);
+                    }
+                    14 => {
+                        let c = enc.clone();
+                        stash = Some(core::mem::replace(&mut enc, c));
                         out.push(0);
                     }
                     8 => {
